@@ -15,7 +15,7 @@
    (c09_global_writes / c09_global_uses / c09_rng_uses).  What the calls compute from their
    arguments (the models of C07 / C05 / C02) is abstract: a record of oracle functions.
    No proofs here (Proofs/ProcessP.v). *)
-From Coq Require Import String QArith.
+From Coq Require Import String QArith Qabs.
 From CKT Require Import Common.Base.
 Close Scope Q_scope.
 Open Scope string_scope.
@@ -182,6 +182,34 @@ Inductive nsamples := NInf | NFin (n : Q).
 Definition threshold (ns : nsamples) : Q :=
   match ns with NInf => 0%Q | NFin n => (1 / n)%Q end.
 
+(* ---- qpd_basis.py / weights.py: the quantity that decides between the all-exact branch and sampling ---- *)
+Definition qsum (l : list Q) : Q := fold_right Qplus 0%Q l.
+
+(* QPDBasis.coeffs setter (qpd_basis.py):  weights = np.abs(coeffs); kappa = sum(weights); probabilities = weights / kappa *)
+Definition probabilities (coeffs : list Q) : list Q :=
+  let kappa := qsum (map Qabs coeffs) in map (fun c => (Qabs c / kappa)%Q) coeffs.
+
+Definition nonzero_atol_c09 : Q := (1 # 100000000000000)%Q.       (* weights._NONZERO_ATOL = 1e-14 *)
+
+Definition qmin (a b : Q) : Q := if Qle_bool a b then a else b.
+
+(* _min_filter_nonzero(vals) = np.min(vals[~np.isclose(vals, 0, atol)]) ; np.min of an empty selection raises ValueError *)
+Definition min_filter_nonzero (vals : list Q) : option Q :=
+  match filter (fun v => negb (Qle_bool (Qabs v) nonzero_atol_c09)) vals with
+  | [] => None
+  | v :: r => Some (fold_left qmin r v)
+  end.
+
+(* np.prod([_min_filter_nonzero(probs) for probs in independent_probabilities]) ; None = the ValueError above *)
+Fixpoint prod_min_nonzero (bases : list (list Q)) : option Q :=
+  match bases with
+  | [] => Some 1%Q
+  | b :: r => match min_filter_nonzero (probabilities b), prod_min_nonzero r with
+              | Some m, Some p => Some (m * p)%Q
+              | _, _ => None
+              end
+  end.
+
 (* External components.  Each field is a function, so "same inputs, same output" is built in;
    the contract of a field is the comment next to it. *)
 Record oracles := mkO {
@@ -196,8 +224,8 @@ Record oracles := mkO {
      the LO function table (after the greedy pass), the decomposition registry (qc_to_cco_circuit and cut_gates
      call QPDBasis.from_instruction), its arguments, and the tape of the per-search Generator (model of C07) *)
   find_cuts_pure : res action_names -> func_table -> list string -> args_fc -> tape -> res_fc ;
-  (* weights.py:269-273  smallest_probability = prod(min nonzero |coeff|/kappa); contract: >= 0 *)
-  smallest_probability : args_ge -> Q ;
+  (* the coefficient lists (QPDBasis.coeffs) of the bases of the cut gates of the problem, one list per basis *)
+  ge_coeffs : args_ge -> list (list Q) ;
   (* weights.py:290-372 below the all-exact branch: does control reach _populate_samples (np.random.choice)? *)
   tail_reaches_sampler : args_ge -> Q -> bool ;
   (* O-choice: np.random.choice on the GLOBAL RandomState consumes state *)
@@ -235,10 +263,15 @@ Definition tape_of (s : seed_spec (tape O)) : tape O :=
 Definition ns_valid (ns : nsamples) : bool :=
   match ns with NInf => true | NFin n => Qle_bool 1 n end.
 
+Definition smallest_probability (a : args_ge O) : option Q := prod_min_nonzero (ge_coeffs O a).
+
 Definition reaches_sampler (a : args_ge O) (ns : nsamples) : bool :=
   if negb (ns_valid ns) then false
-  else if Qle_bool (threshold ns) (smallest_probability O a) then false
-  else tail_reaches_sampler O a (threshold ns).
+  else match smallest_probability a with
+       | None => false                       (* ValueError out of np.min: refused before any sampling *)
+       | Some p => if Qle_bool (threshold ns) p then false
+                   else tail_reaches_sampler O a (threshold ns)
+       end.
 
 (* the classes of calls the property speaks about: every find_cuts and from_instruction call, and every generation
    that does not reach the sampler — num_samples = inf always (lemma exact_never_samples), and also every finite
